@@ -1,6 +1,7 @@
-(** DInv for Db/Machine.v, part 2 (control flow with both fixes, [midcheck =
-    postcopy = true]): the ghost cursor is never [Lost] outside control states
-    that are certain to end in a boundary snapshot.  This is where G1/G2
+(** DInv for Db/Machine.v, part 2 (control flow with [postcopy = true] and
+    [midcheck = true] or [recheck = true]; /repo HEAD has all three): the ghost
+    cursor is never [Lost] outside control states that are certain to end in a
+    boundary snapshot.  This is where G1/G2
     (litestream's read mark and its write-lock barrier constrain WAL restarts),
     the unconditional TRUNCATE snapshot, and for FULL/RESTART the header re-read
     after the PRAGMA and the copy that follows it are used.  The only side
@@ -14,13 +15,16 @@ Section Safe.
 Variable data : Type.
 Variable zero : data.
 Variable lock : N.
-(** [recheck]: the proposed header re-read after the post-checkpoint copy; the
-    proofs below cover both values, [window_ok] is trivial when it is [true] *)
+(** [recheck]: the header re-read after the post-checkpoint copy (commit
+    bb88a29); [window_ok] is trivial when it is [true].  The proofs cover every
+    combination in which at least one of the two header re-reads is made. *)
+Variable midcheck : bool.
 Variable recheck : bool.
+Hypothesis Hmr : midcheck = true \/ recheck = true.
 
 Local Notation state := (state data).
 Local Notation inv := (inv data zero lock).
-Local Notation step := (step data lock true true recheck).
+Local Notation step := (step data lock midcheck true recheck).
 
 (** everything of the live generation is replicated (or nothing was ever replicated) *)
 Definition at_end (s : state) : Prop :=
@@ -633,49 +637,56 @@ Proof.
 Qed.
 
 (** the header re-read of commit 80a5b27 *)
+Lemma safe_mid_fr s m hg pre wn n :
+  inv s -> safe s -> pc data s = PCkpted m hg pre wn -> frb m = true -> ls_mark data s = Some n ->
+  safe (set_pc data s (PMid m hg pre wn (mid_restarted midcheck m hg (gen data s)))).
+Proof.
+  intros H Hs Epc Hf Em. pose proof Hs as [K S W L T O N P F Q]. rewrite Epc in *.
+  destruct (T hg eq_refl) as [T1 _].
+  assert (Hpend : pendingb (PCkpted m hg pre wn) = false) by (destruct m; try discriminate; reflexivity).
+  assert (Hpend' : forall rb, pendingb (PMid m hg pre wn rb) = false) by (destruct m; try discriminate; reflexivity).
+  assert (Hptr : forall rb, post_truncb (PMid m hg pre wn rb) = false) by (destruct m; try discriminate; reflexivity).
+  unfold mid_restarted. rewrite Hf, andb_true_r.
+  set (rb := midcheck && negb (hg =? gen data s)).
+  assert (Hrb : rb = true -> hg < gen data s).
+  { unfold rb. intros A. apply andb_prop in A. destruct A as [_ A].
+    apply negb_true_iff in A. apply Nat.eqb_neq in A. lia. }
+  assert (Hlost : hg < gen data s -> rb = true \/ recheck = true).
+  { intros A. destruct Hmr as [B|B]; [left|right; exact B].
+    unfold rb. rewrite B. cbn. apply negb_true_iff. apply Nat.eqb_neq. lia. }
+  constructor; cbn -[Nat.ltb]; rewrite ?Hf, ?Hpend', ?Hptr; cbn -[Nat.ltb]; triv.
+  - intros _ _ _. destruct rb eqn:Er.
+    + right. right. right. left. unfold freeb. cbn. rewrite Hf. reflexivity.
+    + right. right. right. right. unfold postpendb, post_pending, needs_post. rewrite Hf. reflexivity.
+  - intros A. destruct (L A) as [B|[B|[B|B]]]; [auto|congruence|discriminate|].
+    right. right. right. cbn -[Nat.ltb] in B. rewrite Hf in B. cbn -[Nat.ltb] in B.
+    rewrite B. apply Nat.ltb_lt in B. cbn. destruct (Hlost B) as [C|C]; rewrite C; [reflexivity|apply orb_true_r].
+  - intros hg' A. inversion A; subst hg'. split; [exact T1|]. split; [destruct m; discriminate|exact Hrb].
+  - intros A. specialize (P A). discriminate.
+Qed.
+
 Lemma safe_LsMid s s' : inv s -> safe s -> step s (LsMid data) = Some s' -> safe s'.
 Proof.
   intros H Hs E. cbn in E. pose proof Hs as [K S W L T O N P F Q].
   destruct (pc data s) as [| | | | | |m0 hg0 pre0 wn0| | | | | | | |] eqn:Epc; try discriminate.
   destruct (ls_mark data s) eqn:Em; [|discriminate].
   inversion E; subst s'. clear E.
-  destruct (T hg0 eq_refl) as [T1 [T2 _]].
-  destruct m0; unfold mid_restarted; cbn [frb andb].
-  - destruct (S eq_refl) as [S1 S2]. constructor; cbn in *; fin2.
-  - destruct (hg0 =? gen data s) eqn:Eg; cbn [negb].
-    + apply Nat.eqb_eq in Eg.
-      constructor; cbn -[Nat.ltb] in *; fin2.
-      all: try solve [intros _ _ _; auto 8].
-      all: try solve [intros A; destruct (L A) as [B|[B|[B|B]]]; try discriminate; [auto|];
-                      apply Nat.ltb_lt in B; lia].
-    + apply Nat.eqb_neq in Eg.
-      constructor; cbn -[Nat.ltb] in *; fin2.
-      all: try solve [intros _ _ _; auto 8].
-      all: try solve [intros A; destruct (L A) as [B|[B|[B|B]]]; try discriminate; [auto|];
-                      right; right; right; rewrite B; reflexivity].
-      all: try solve [intros hg A; inversion A; subst; split; [exact T1|]; split; [discriminate|]; intros _; lia].
-  - destruct (hg0 =? gen data s) eqn:Eg; cbn [negb].
-    + apply Nat.eqb_eq in Eg.
-      constructor; cbn -[Nat.ltb] in *; fin2.
-      all: try solve [intros _ _ _; auto 8].
-      all: try solve [intros A; destruct (L A) as [B|[B|[B|B]]]; try discriminate; [auto|];
-                      apply Nat.ltb_lt in B; lia].
-    + apply Nat.eqb_neq in Eg.
-      constructor; cbn -[Nat.ltb] in *; fin2.
-      all: try solve [intros _ _ _; auto 8].
-      all: try solve [intros A; destruct (L A) as [B|[B|[B|B]]]; try discriminate; [auto|];
-                      right; right; right; rewrite B; reflexivity].
-      all: try solve [intros hg A; inversion A; subst; split; [exact T1|]; split; [discriminate|]; intros _; lia].
-  - constructor; cbn in *; fin2.
+  destruct m0.
+  - unfold mid_restarted. cbn [frb]. rewrite andb_false_r. cbn [andb].
+    destruct (S eq_refl) as [S1 S2]. constructor; cbn in *; fin2.
+  - eapply safe_mid_fr; eauto.
+  - eapply safe_mid_fr; eauto.
+  - unfold mid_restarted. cbn [frb]. rewrite andb_false_r. cbn [andb].
+    constructor; cbn in *; fin2.
 Qed.
 
 Lemma safe_unlock_post s m hg pre wn :
   inv s -> safe s -> pc data s = PPost m hg pre wn ->
-  safe (set_pc data s (PUnlocked m hg pre wn (recheck && negb (hg =? gen data s)))).
+  safe (set_pc data s (PUnlocked m hg pre wn (post_rb recheck hg (gen data s)))).
 Proof.
   intros H Hs Epc. pose proof Hs as [K S W L T O N P F Q]. rewrite Epc in *.
   destruct (T hg eq_refl) as [T1 _]. pose proof (F m eq_refl) as Hf.
-  destruct (recheck && negb (hg =? gen data s)) eqn:Erb.
+  unfold post_rb. destruct (recheck && negb (hg =? gen data s)) eqn:Erb.
   - apply andb_prop in Erb. destruct Erb as [Er Eg]. apply negb_true_iff in Eg. apply Nat.eqb_neq in Eg.
     constructor; cbn -[Nat.ltb]; rewrite ?Hf; cbn -[Nat.ltb]; triv.
     all: try solve [intros _ _ _; right; right; right; left; unfold freeb; cbn; rewrite Hf; reflexivity].
